@@ -712,6 +712,43 @@ def _xproc_task(task: Tuple[int, int]) -> Report:
     return rep
 
 
+# ------------------------------------------------------------------------------------------------ covfuzz phase
+# Coverage-guided driver (vp_harness/covfuzz.py): atheris/libFuzzer mutates the byte string from which the SAME
+# programs() strategy draws, with the assembler's Python modules instrumented; cases go to the SAME evaluate_program.
+COVFUZZ = True
+COVFUZZ_INSTRUMENT = ["sc62015.pysc62015.sc_asm", "sc62015.pysc62015.asm"]
+COVFUZZ_PREIMPORT = ["sc62015.pysc62015.sc_asm", "sc62015.pysc62015.asm", "sc62015.pysc62015.instr"]
+
+
+def covfuzz_test(target: str, rep: Report, extra: Dict[str, Any]) -> Any:
+    """The @given test the covfuzz child drives through fuzz_one_input (target: "prog")."""
+    from hypothesis import given
+
+    _set_palette(extra["palette_infos"])
+    programs, _histories = _strategies()
+    if target != "prog":
+        raise HarnessError(f"unknown covfuzz target {target!r}")
+
+    @_hyp_settings(1)
+    @given(programs(int(extra["max_lines"])))
+    def prop(prog: Dict[str, Any]) -> None:
+        evaluate_program(prog, rep)
+        rep.labels["covfuzz"] += 1
+
+    return prop
+
+
+def _covfuzz_phase(ctx: Ctx, infos: List[Dict[str, Any]]) -> Report:
+    from .. import covfuzz as CF
+
+    shards = 16
+    runs = ctx.pick(14, 220)
+    return CF.cov_fuzz_many("vp_harness.props.c10", "prog", [ctx.shard_seed(3000 + i) for i in range(shards)], runs,
+                            max_len=4096, instrument=COVFUZZ_INSTRUMENT, preimport=COVFUZZ_PREIMPORT,
+                            extra={"palette_infos": infos, "max_lines": 14}, budget_s=ctx.pick(25.0, 150.0),
+                            pad_len=8192)
+
+
 def _any_task(task: Any) -> Report:
     return _xproc_task(task[1:]) if task[0] == "xproc" else _task(task)
 
@@ -747,14 +784,18 @@ def run(ctx: Ctx) -> Report:
     # per-shard time budget (a hit is INCONCLUSIVE, never a verdict); VERIF_C10_BUDGET_S=0 switches it off, for
     # validation runs on a machine that other jobs keep busy
     budget = float(os.environ.get("VERIF_C10_BUDGET_S", ctx.pick(90.0, 480.0)))
+    from .. import covfuzz as CF
+    only = CF.only_phase()
     tasks: List[Tuple[str, int, int, int, float]] = []
-    for i in range(shards):
+    for i in range(0 if only == "covfuzz" else shards):
         tasks.append(("prog", ctx.shard_seed(i), n_prog // shards, 14 if i % 4 else 40, budget))
-    for i in range(hshards):
+    for i in range(0 if only == "covfuzz" else hshards):
         tasks.append(("hist", ctx.shard_seed(1000 + i), n_hist // hshards, 8, budget))
-    for i in range(ctx.pick(1, 4)):
+    for i in range(0 if only == "covfuzz" else ctx.pick(1, 4)):
         tasks.append(("xproc", ctx.shard_seed(2000 + i), ctx.pick(24, 60)))  # type: ignore[arg-type]
     rep = ctx.merge_reports(ctx.pmap(_any_task, tasks))
+    if COVFUZZ and only in (None, "covfuzz"):
+        CF.merge_covfuzz(rep, _covfuzz_phase(ctx, infos))
     rep.rule = RULE
     rep.extra["palette_candidates"] = len(cands)
     rep.extra["palette_accepted"] = len(_PALETTE)
@@ -801,6 +842,8 @@ def run(ctx: Ctx) -> Report:
         "history verdicts compare with a fresh Assembler in the same process (module-level caches are already "
         "warm); error messages are compared on their first line",
     ]
+    if COVFUZZ:
+        rep.assumptions.append(CF.ASSUMPTION)
     return rep
 
 
